@@ -417,26 +417,52 @@ fn judge(hist: &[Op], out: &RunOut, model: &Model, report: &Report, cap: usize) 
     report.outcome(if ok { "delivered-as-model" } else { "deviates" });
 }
 
-fn histories(depth: usize, max_streams: usize, max_msgs: usize) -> Vec<Vec<Op>> {
-    let mut out = vec![];
-    fn rec(h: &mut Vec<Op>, m: &Model, depth: usize, ms: usize, mm: usize, out: &mut Vec<Vec<Op>>) {
-        // only histories that deliver at least one message are worth running
+/// Enumerate every history of ≤ `depth` operations (only those that deliver at least one message
+/// are run) without materialising the tree: the tree is split at `split` operations, the
+/// subtrees are walked in parallel, `f` is called on every history.
+fn for_each_history(depth: usize, max_streams: usize, max_msgs: usize, f: &(dyn Fn(&[Op]) + Sync)) -> u64 {
+    fn rec(h: &mut Vec<Op>, m: &Model, depth: usize, ms: usize, mm: usize, f: &dyn Fn(&[Op]), n: &mut u64, stop_at: Option<usize>, roots: &mut Vec<(Vec<Op>, Model)>) {
         if h.iter().any(|o| matches!(o, Op::Msg(_))) {
-            out.push(h.clone());
+            f(h);
+            *n += 1;
         }
         if h.len() == depth {
+            return;
+        }
+        if Some(h.len()) == stop_at {
+            roots.push((h.clone(), m.clone()));
             return;
         }
         for op in m.enabled(ms, mm) {
             let mut m2 = m.clone();
             m2.apply(op, &|_| vec![]);
             h.push(op);
-            rec(h, &m2, depth, ms, mm, out);
+            rec(h, &m2, depth, ms, mm, f, n, stop_at, roots);
             h.pop();
         }
     }
-    rec(&mut vec![], &Model::default(), depth, max_streams, max_msgs, &mut out);
-    out
+    let split = 2.min(depth);
+    let mut roots = vec![];
+    let mut n = 0u64;
+    // histories shorter than the split point, and the subtree roots
+    rec(&mut vec![], &Model::default(), depth, max_streams, max_msgs, f, &mut n, Some(split), &mut roots);
+    let total = std::sync::atomic::AtomicU64::new(n);
+    vcommon::par_for(roots.len(), 1, |i| {
+        let (h, m) = &roots[i];
+        let mut h = h.clone();
+        let mut n = 0u64;
+        let mut none = vec![];
+        // the root itself was already visited above: walk its children only
+        for op in m.enabled(max_streams, max_msgs) {
+            let mut m2 = m.clone();
+            m2.apply(op, &|_| vec![]);
+            h.push(op);
+            rec(&mut h, &m2, depth, max_streams, max_msgs, f, &mut n, None, &mut none);
+            h.pop();
+        }
+        total.fetch_add(n, std::sync::atomic::Ordering::Relaxed);
+    });
+    total.load(std::sync::atomic::Ordering::Relaxed)
 }
 
 // ---------------------------------------------------------------------------------------------
@@ -470,7 +496,7 @@ fn sched_scenario(p: SParams) -> ExecResult {
         .expect("build");
     // two rule streams + optionally the unfiltered one, created before any message
     let kinds: Vec<u8> = if p.with_unfiltered { vec![0, 1, 2] } else { vec![0, 1] };
-    let mut consumers: Vec<(u8, Handle<Vec<u32>>)> = vec![];
+    let mut consumers: Vec<(u8, Handle<(Vec<u32>, MessageStream)>)> = vec![];
     let events: std::sync::Arc<Mutex<Vec<String>>> = Default::default();
     let cap = p.cap;
     let mut streams = vec![];
@@ -510,9 +536,9 @@ fn sched_scenario(p: SParams) -> ExecResult {
                         None => break,
                     }
                 }
-                // keep the stream alive until the end of the execution
-                std::mem::forget(s);
-                got
+                // keep the stream alive until the end of the execution (it is returned with
+                // the result and dropped with the handle)
+                (got, s)
             }),
         ));
     }
@@ -542,7 +568,7 @@ fn sched_scenario(p: SParams) -> ExecResult {
             .map(|(i, _)| i as u32)
             .collect();
         match h.take() {
-            Some(got) => {
+            Some((got, _stream)) => {
                 w.obs(format!("kind{k} got {got:?}"));
                 if got != want {
                     res.violations.push(
@@ -606,31 +632,32 @@ pub fn main(args: &Args) -> i32 {
     let report = Report::new("C20", args.tier, args.seed, "model_checking");
     // Part A
     let depth = args.tier.pick(5, 6);
-    let hs = histories(depth, 3, 3);
     // capacity ≥ number of messages: no back-pressure in part A, so a message *arrives* (is read by
     // the socket reader) in the step that delivers it; back-pressure is part B's subject
-    let caps: Vec<usize> = vec![4];
-    let n = hs.len() * caps.len();
-    let transitions = Mutex::new(0u64);
-    let states = Mutex::new(std::collections::BTreeSet::new());
-    vcommon::par_for(n, 32, |idx| {
-        let h = &hs[idx / caps.len()];
-        let cap = caps[idx % caps.len()];
+    let cap = 4usize;
+    let caps = vec![cap];
+    let transitions = std::sync::atomic::AtomicU64::new(0);
+    let states = Mutex::new(std::collections::HashSet::new());
+    let nontrivial = Mutex::new(std::collections::HashSet::new());
+    let n_hist = for_each_history(depth, 3, 3, &|h: &[Op]| {
         let (out, model) = run_history(h, cap);
         report.eval(1);
         judge(h, &out, &model, &report, cap);
-        *transitions.lock().unwrap() += h.len() as u64;
+        transitions.fetch_add(h.len() as u64, std::sync::atomic::Ordering::Relaxed);
         let st = hash64(&(format!("{:?}", model.streams.iter().map(|s| (s.kind, s.alive, &s.required)).collect::<Vec<_>>()), &out.yielded));
         states.lock().unwrap().insert(st);
         if h.iter().any(|o| matches!(o, Op::Clone(_) | Op::Drop(_) | Op::AsyncDrop(_))) {
-            report.nontrivial(hash64(&(h, cap)));
+            nontrivial.lock().unwrap().insert(hash64(&(h, cap)));
+        }
+        if report.n_samples() < 2 && h.len() == depth {
+            report.sample(json!({"history": h.iter().map(|o| format!("{o:?}")).collect::<Vec<_>>()}));
         }
     });
-    report.sample(json!({"history": hs[hs.len() / 2].iter().map(|o| format!("{o:?}")).collect::<Vec<_>>()}));
-    report.sample(json!({"history": hs[hs.len() - 1].iter().map(|o| format!("{o:?}")).collect::<Vec<_>>()}));
+    report.set("part_a_histories_with_clone_or_drop", json!(nontrivial.lock().unwrap().len()));
+    let hs_len = n_hist;
     let bfs_execs = report.evaluations();
     let bfs_states = states.lock().unwrap().len() as u64;
-    let bfs_transitions = *transitions.lock().unwrap();
+    let bfs_transitions = transitions.load(std::sync::atomic::Ordering::Relaxed);
     // Part B
     let totals = Mutex::new(Totals::default());
     let quick = args.tier == Tier::Quick;
@@ -660,7 +687,7 @@ pub fn main(args: &Args) -> i32 {
         t.states += bfs_states;
         t.transitions += bfs_transitions;
         t.distinct_logs += bfs_states;
-        t.scenarios.push(json!({"part": "A: full history tree", "depth": depth, "histories": hs.len(), "queue_capacities": caps,
+        t.scenarios.push(json!({"part": "A: full history tree", "depth": depth, "histories": hs_len, "queue_capacities": caps,
             "alphabet": "create(R1|R2|unfiltered), clone(i), drop(i), async_drop(i), inbound(S1|S2|X), poll(i); ≤3 streams, ≤3 messages; only histories with ≥1 message",
             "executions": bfs_execs, "distinct_model_state_and_observation": bfs_states}));
     }
